@@ -113,7 +113,7 @@ CLAIMED = {
                 "the files kept and every non-pod unit of the subset converts, then every non-pod unit of the subset has exactly the same result -- service text and service file name -- in the run over the whole set; the added files may be valid, "
                 "fail conversion, or not load at all), by C10_convert_one_monotone (a successful conversion is unchanged under any name table that has more entries or longer container lists), table-effect lemmas for all seven converters in every "
                 "outcome, C10_sort_filter (the stable priority sort commutes with leaving units out) and C10_unloadable_files_change_nothing; C10_independence_example shows the premises are satisfiable; C10_added_files_change_nothing_pods extends the statement to pods (a pod keeps its service too unless one of the added units names it in Pod=; C10_pod_independence_example shows both sides); C10_priority_table ties the conversion order of the model to main.rs. Bookkeeping: C10_exit (exit status 1 exactly "
-                "when the error list is non-empty, 0 exactly when it is empty), C10_one_result_per_file, C10_each_unit_converted_once. All of these also for the run over unit files merged with their drop-ins (process_trees: C10_*_with_dropins, where leaving a file out leaves its drop-ins out with it). DISCOVERY ORDER: C10_lone_unit_result_any_order (a unit that converts on its own has that same result in every run containing its file, under every permutation of the files, whatever the others are; C10_lone_unit_example). PARTIAL beyond that: independence from "
+                "when the error list is non-empty, 0 exactly when it is empty), C10_one_result_per_file, C10_each_unit_converted_once. All of these also for the run over unit files merged with their drop-ins (process_trees: C10_*_with_dropins, where leaving a file out leaves its drop-ins out with it). DISCOVERY ORDER: C10_lone_unit_result_any_order (a unit that converts on its own has that same result in every run containing its file, under every permutation of the files, whatever the others are; C10_lone_unit_example) and C10_group_result_any_surroundings (a group of files whose non-pod units convert on their own: each has the same result in any two runs that contain the group in the same relative order, whatever the other files are and wherever they were discovered). PARTIAL beyond that: independence from "
                 "placements over search directories and from creation order, and that every failure is logged with the file's path, are decided by the metamorphic "
                 "end-to-end oracle (base set alone vs. base set + extras, service by service), together with the whole-set correspondence of the Process model used by C08/C09.",
         "note": "Trusted: Coq kernel; the process/output models; the logger (ERROR lines are matched by file name); a pod's service legitimately depends on member containers (excluded from the extras).",
